@@ -906,3 +906,90 @@ func RunStructuredScalars(seed int64) (res Result) {
 	}
 	return
 }
+
+// RunKeyGenAfterNoise: key generation is a function of the seed alone, whatever the process did before: between two derivations of
+// the same keys a battery of unrelated calls is made (format checks of signatures with tiny, huge and boundary scalars, decoding of
+// rejected and accepted strings, verification of junk) - nothing of it may leak into GeneratePrivateKey / DecodePrivateKey.
+func RunKeyGenAfterNoise(seed int64) (res Result) {
+	res.Violations = []Violation{}
+	defer func() {
+		if r := recover(); r != nil {
+			res.Violations = append(res.Violations, Violation{"C09", "NoPanic", fmt.Sprintf("key generation after unrelated calls: panic: %v", r)})
+		}
+	}()
+	rng := rand.New(rand.NewSource(seed))
+	one := big.NewInt(1)
+	for _, an := range []string{"BLS", "P-256", "secp256k1"} {
+		algo, cur, order := algoOf(an)
+		sd := make([]byte, 32+rng.Intn(40))
+		rng.Read(sd)
+		var want *big.Int
+		if cur == nil {
+			want = RefBLSKeyGen(sd)
+		} else {
+			want = RefECDSAKeyGen(sd, cur)
+		}
+		wb := make([]byte, 32)
+		want.FillBytes(wb)
+		check := func(when string) {
+			res.Evals += 3
+			sk, err := crypto.GeneratePrivateKey(algo, append([]byte(nil), sd...))
+			if err != nil || !bytes.Equal(sk.Encode(), wb) {
+				res.Violations = append(res.Violations, Violation{"C12", "DocumentedDerivation", fmt.Sprintf("%s key from seed %x %s: %v, the documented derivation gives %x", an, sd, when, err, wb)})
+				return
+			}
+			if pk := sk.PublicKey().Encode(); !bytes.Equal(pk, refPublicKey(an, cur, want)) {
+				res.Violations = append(res.Violations, Violation{"C12", "PublicKeyIsScalarTimesGenerator", fmt.Sprintf("%s key from seed %x %s: public key %x", an, sd, when, pk)})
+			}
+			ob := make([]byte, 32)
+			order.FillBytes(ob)
+			if _, err := crypto.DecodePrivateKey(algo, ob); err == nil {
+				res.Violations = append(res.Violations, Violation{"C12", "DecodeInRange", fmt.Sprintf("%s: the group order decodes as a private key %s", an, when)})
+			}
+			om := make([]byte, 32)
+			new(big.Int).Sub(order, one).FillBytes(om)
+			if _, err := crypto.DecodePrivateKey(algo, om); err != nil {
+				res.Violations = append(res.Violations, Violation{"C12", "DecodeInRange", fmt.Sprintf("%s: order - 1 is refused as a private key %s: %v", an, when, err)})
+			}
+		}
+		check("at first")
+		// the battery
+		sigLen := 64
+		if cur == nil {
+			sigLen = 48
+		}
+		var vals []*big.Int
+		for _, k := range []uint{0, 1, 8, 32, 63, 64, 127, 128, 129, 191, 192, 255} {
+			vals = append(vals, new(big.Int).Lsh(one, k), new(big.Int).Sub(new(big.Int).Lsh(one, k), one))
+		}
+		vals = append(vals, new(big.Int).Sub(order, one), new(big.Int).Set(order), new(big.Int).Add(order, one), big.NewInt(0))
+		sk0, _ := crypto.GeneratePrivateKey(algo, make([]byte, 48))
+		for _, r := range vals {
+			for _, s := range []*big.Int{one, r, new(big.Int).Sub(order, one)} {
+				sig := make([]byte, sigLen)
+				if cur != nil {
+					new(big.Int).Mod(r, new(big.Int).Lsh(one, 256)).FillBytes(sig[:32])
+					new(big.Int).Mod(s, new(big.Int).Lsh(one, 256)).FillBytes(sig[32:])
+				} else {
+					new(big.Int).Mod(r, new(big.Int).Lsh(one, 256)).FillBytes(sig[16:])
+					sig[0] |= 0x80
+				}
+				_, _ = crypto.SignatureFormatCheck(algo, sig)
+				if cur != nil {
+					_, _ = sk0.PublicKey().Verify(sig, []byte("noise"), hash.NewSHA3_256())
+				}
+				res.Evals++
+			}
+		}
+		junk := make([]byte, 200)
+		rng.Read(junk)
+		for _, l := range []int{0, 1, 31, 32, 33, 48, 64, 65, 96, 97, 192} {
+			_, _ = crypto.DecodePrivateKey(algo, junk[:l])
+			_, _ = crypto.DecodePublicKey(algo, junk[:l])
+			_, _ = crypto.DecodePublicKeyCompressed(algo, junk[:l])
+		}
+		_, _ = crypto.DecodePublicKey(algo, sk0.PublicKey().Encode())
+		check("after a battery of unrelated calls (format checks with tiny and boundary scalars, decoding, verification of junk)")
+	}
+	return
+}
